@@ -346,7 +346,7 @@ class AtomsEngine(Engine):
         if r.random() < 0.55:
             V = geom.draw_tri_cell(r, 1.0)
             if r.random() < 0.3:
-                V = V @ geom.random_rotation(r).T
+                V = geom.snap_small(V @ geom.random_rotation(r).T)
             op['system'] = {'V': V, 'origin': geom.draw_origin(r, float(np.abs(V).max())),
                             'pbc': [r.random() < 0.7 for _ in range(3)],
                             'symbols': r.choice([None, 'Al', [r.choice(SYMS) for _ in range(r.randint(1, 4))]]),
